@@ -891,7 +891,10 @@ def _run_rest(ctx, pool, rb, rm):
                 raise tlc.TLCFailure("sensitivity configuration %s should violate RoundTrip, got %r" % (name, rs.violated))
         ctx.note("sensitivity_violations", sens)
         # ---------------- case generation
-        rg = ctx.tlc("MC_SchemaStore", "MC_SchemaStore_gen.cfg", workers=1, timeout=3000,
+        # the added unit is called jiffy in one of the two generation runs and jif/fy (allowedCharacter=slash) in the other
+        slash = ("UnitNames <- UnitNamesDef", "UnitNames <- UnitNamesSlash")
+        same = ("UnitNames <- UnitNamesDef", "UnitNames <- UnitNamesDef")
+        rg = ctx.tlc("MC_SchemaStore", ctx.cfg("MC_SchemaStore_gen.cfg", slash if ctx.seed % 2 else same), workers=1, timeout=3000,
                      label="generation: every schema reachable by <= 2 edits with the saved-XML rows the specification prescribes")
         cases = [j for j in rg.json_lines if "edits" in j]
         base0 = [j for j in rg.json_lines if "base" in j]
@@ -899,7 +902,7 @@ def _run_rest(ctx, pool, rb, rm):
         rs = ctx.tlc("MC_SchemaStore", "MC_SchemaStore_sim.cfg", workers=1, mode="simulate", simulate="num=%d" % nsim, depth=6,
                      seed=ctx.seed + 1, timeout=3000, label="generation: random edit sequences of length <= 5 (simulation)")
         deep = [j for j in rs.json_lines if "edits" in j and len(j["edits"]) >= 3]
-        rstd = ctx.tlc("MC_SchemaStore", "MC_SchemaStore_genstd.cfg", workers=1, timeout=3000,
+        rstd = ctx.tlc("MC_SchemaStore", ctx.cfg("MC_SchemaStore_genstd.cfg", same if ctx.seed % 2 else slash), workers=1, timeout=3000,
                        label="generation: stand-alone standard schema, every schema reachable by <= 2 edits")
         std_cases = [j for j in rstd.json_lines if "edits" in j]
     finally:
